@@ -22,7 +22,9 @@ RULE = ('matrix: every (operator, left, right) over the 14 binary operators and 
         'decision, trace = complete execution); order: the same explorer over all 14 binary and both unary operators, group, if/1..3 and '
         'host/script/library calls with 1..3 arguments as node kinds, leaves tt(i) or a read of the global gc that every tt call '
         'increments (tape over {false, 2, \'a\', 0}; where an operator result is '
-        'UNSPECIFIED only order and number of leaf evaluations are compared); alias: every expression built-in x every argument tuple of arity <= 3 over a '
+        'UNSPECIFIED only order and number of leaf evaluations are compared); callee: the same explorer over calls of an unbound name '
+        '(1..3 arguments) and of a name bound to null, whose arguments must all be evaluated, in order, before the run fails '
+        'with BareScriptRuntimeError, plus a leaf rebind() that re-binds a called name; alias: every expression built-in x every argument tuple of arity <= 3 over a '
         '12-value pool against the library function it is documented to alias; shadow: a global or local binding wins over '
         'every built-in. Non-trivial: a matrix cell whose result is not null; a tree where some valuation leaves a leaf '
         'unevaluated; an order tree with at least two leaves; an alias call that returns a non-null value; a shadowed name whose built-in accepts the argument 1.')
@@ -214,7 +216,7 @@ def rv_show(sym, unary, tier):
 # (b) order and laziness: effect trees, explored over all tapes. Two families share the machinery:
 #     effects - lazy/eager node kinds to a larger tree size; order - every operator and call arity to a smaller size.
 
-DOMAINS = {'effects': DOMAIN, 'order': [False, 2, 'a', 0]}
+DOMAINS = {'effects': DOMAIN, 'order': [False, 2, 'a', 0], 'callee': [False, 2]}
 
 
 def shapes(n, which='effects'):
@@ -232,6 +234,19 @@ def effect_env():
 
 def host_hh(args, options):  # pylint: disable=unused-argument
     return list(args)
+
+
+def host_hh_new(args, options):  # pylint: disable=unused-argument
+    return ['new'] + list(args)
+
+
+def host_rebind(args, options):  # pylint: disable=unused-argument
+    options['globals']['hh'] = host_hh_new      # the callee family's leaf rebind(): binds hh to a different function
+    return None
+
+
+def ref_hh_new(vals):
+    return ['new'] + list(vals)
 
 
 def ref_ff(vals):
@@ -261,7 +276,7 @@ def run_impl(model, prefix, how, domain):
         options['globals']['gc'] += 1         # every effect call advances the global counter that 'gc' leaves read
         return tape.next(args[0])
 
-    glob = {'tt': tt, 'ff': ff, 'arrayNew': array_new, 'hh': host_hh, 'gc': 0}
+    glob = {'tt': tt, 'ff': ff, 'arrayNew': array_new, 'hh': host_hh, 'gc': 0, 'rebind': host_rebind, 'nullfn': None}
     if how == 'expression':
         res = guarded(bs.evaluate_expression, model, {'globals': glob, 'statementCount': 0}, None, False)
     elif how == 'script-model':
@@ -282,8 +297,16 @@ def run_ref(model, prefix, domain):
         variables['gc'] += 1
         return tape.next(vals[0])
 
-    funcs = {'tt': tt, 'ff': ref_ff, 'arrayNew': list, 'hh': list}
-    res, complete = rx.evaluate_effects(model, variables, funcs)
+    def rebind(vals):  # pylint: disable=unused-argument
+        funcs['hh'] = ref_hh_new
+        return None
+
+    funcs = {'tt': tt, 'ff': ref_ff, 'arrayNew': list, 'hh': list, 'rebind': rebind}      # 'missing', 'nullfn': no function
+    try:
+        res, complete = rx.evaluate_effects(model, variables, funcs)
+    except rx.RefUndefinedFunction as exc:
+        # the documented runtime error - raised only after the arguments of that call were evaluated
+        return ('raise', 'BareScriptRuntimeError', str(exc)), tape.log, tape.reads, True
     return ('unspecified' if res is rx.UNSPECIFIED else ('value', obs(res))), tape.log, tape.reads, complete
 
 
@@ -307,6 +330,9 @@ def run_effect(model, prefix, acc, case, paths=('expression',)):
             bad = 'number of leaf evaluations'
         elif got_res[0] == 'host-object':
             bad = 'result (a host object that is not a BareScript value)'
+        elif want_res[0] == 'raise':
+            if got_res[0] != 'raise' or got_res[1] != want_res[1] or want_res[2] not in got_res[2]:
+                bad = 'result (a runtime error for the undefined function, after its arguments were evaluated)'
         elif want_res != 'unspecified' and got_res != want_res:
             bad = 'result'
         if bad:
@@ -347,7 +373,8 @@ def explore_tree(n, index, acc):
         for pos in range(reads - 1, len(prefix) - 1, -1):
             for alt in range(ndomain - 1, 0, -1):
                 stack.append(choices[:pos] + (alt,))
-    if (lazy and which == 'effects') or (which == 'order' and leaves >= 1 and text.count('tt(') + text.count('gc') >= 2):
+    if (lazy and which == 'effects') or (which == 'order' and leaves >= 1 and text.count('tt(') + text.count('gc') >= 2) or \
+            (which == 'callee' and leaves >= 1 and ('missing(' in text or 'nullfn(' in text)):
         acc.nontrivial += 1
 
 
@@ -554,6 +581,7 @@ def families(tier):
     effect_shards = tree_shards('effects', nmax)
     omax = 2 if quick else 3
     order_shards = tree_shards('order', omax)
+    callee_shards = tree_shards('callee', omax)
     names = [a for a, _, _ in ALIASES]
     ntuples = sum(len(gx.ALIAS_POOL) ** k for k in range(MAX_ARITY + 1))
     return [
@@ -568,6 +596,10 @@ def families(tier):
                f'if/1..3, host and script calls with 1..3 arguments, arrayNew/2), leaves tt(i) or a read of the global gc that every tt call increments, '
                f'all tapes over {DOMAINS["order"]}',
                expected=sum(gx.tree_count(n, *gx.label_counts('order')) for n in range(omax + 1))),
+        Family('callee', fam_effects, callee_shards,
+               f'every effect tree with <= {omax} internal nodes over calls of an unbound name with 1..3 arguments, of a name bound to null, '
+               f'hh/2, &&, +, group; leaves tt(i), gc, rebind(); all tapes over {DOMAINS["callee"]}',
+               expected=sum(gx.tree_count(n, *gx.label_counts('callee')) for n in range(omax + 1))),
         Family('alias', fam_alias, split(names, 46),
                f'{len(names)} expression built-ins x every argument tuple of arity <= {MAX_ARITY} over {len(gx.ALIAS_POOL)} values ({ntuples} tuples; now/today/rand called once)',
                expected=(len(names) - len(NONDETERMINISTIC)) * ntuples + len(NONDETERMINISTIC)),
@@ -575,7 +607,7 @@ def families(tier):
     ]
 
 
-_CHECKS = {'matrix': check_matrix, 'effects': check_effects, 'order': check_effects, 'alias': check_alias, 'shadow': check_shadow}
+_CHECKS = {'matrix': check_matrix, 'effects': check_effects, 'order': check_effects, 'callee': check_effects, 'alias': check_alias, 'shadow': check_shadow}
 
 
 def replay(family, case):
